@@ -111,7 +111,7 @@ def run(tier):
     if quick:
         full = [s for s in seqs if len(s) < W]
         rs = A.rng_for(chk, "c04-sample")
-        used = full + rs.sample([s for s in seqs if len(s) == W], 100)
+        used = full + rs.sample([s for s in seqs if len(s) == W], 40)
     else:
         # thorough: every workload of <= W-1 blocks and every second one with W blocks
         used = [s for i, s in enumerate(seqs) if len(s) < W or i % 2 == 0]
@@ -127,14 +127,14 @@ def run(tier):
     rng = A.rng_for(chk, "c04")
     # long repetition of a sample (N = 200), biased towards workloads that make the heap trim
     big = [i for i in range(n_tlc) if classes[-1] in plans[i]["blocks"]]
-    for i in rng.sample(big, 16 if quick else 100) + rng.sample(range(n_tlc), 4 if quick else 50):
+    for i in rng.sample(big, 12 if quick else 100) + rng.sample(range(n_tlc), 2 if quick else 50):
         p = dict(plans[i])
         p.update({"reps": 200, "base": 100, "walk": False, "src": "tlc-workload-long", "os": rng.choice("bdd"),
                   "seed": rng.randrange(1, 1 << 40)})
         plans.append(p)
     # boundary-size workloads (random multisets from the C03 alphabet), random placement
     sizes = A.boundary_sizes(k)
-    for i in range(150 if quick else 500):
+    for i in range(100 if quick else 500):
         n = rng.randint(1, 6)
         blocks = [[max(1, rng.choice(sizes) + rng.choice([0, 1, -1])), rng.choice(A.ALIGNS)] for _ in range(n)]
         plans.append({"kind": "work", "blocks": blocks, "free": rng.choice(["fifo", "lifo", "inter"]), "reps": reps,
@@ -142,7 +142,7 @@ def run(tier):
                       "src": "boundary-workload"})
     # churn: allocations and frees interleave (this is where freed space must be reused)
     small = A.small_classes(k)
-    for i in range(30 if quick else 250):
+    for i in range(20 if quick else 250):
         plans.append({"kind": "churn", "seed": rng.randrange(1, 1 << 40), "period": rng.choice([40, 100, 200] if quick else [60, 150, 300]),
                       "slots": rng.choice([6, 16, 40]), "max": rng.choice([3000, 70000, 400000]), "reps": reps,
                       "base": reps // 2, "os": rng.choice("bad"), "rand_place": i % 2 == 1, "classes": small,
@@ -254,6 +254,20 @@ def run(tier):
         for osd in (("b",) if quick else ("b", "a", "d")):
             plans.append({"kind": "hist", "slots": 2 * nhole + 1, "ops": ops, "os": osd,
                           "src": "directed-hole-takes-the-same-request-again"})
+    # directed family "grow in place next to a big binned neighbour": A big, pin behind it, A shrunk to little
+    # (the tail is binned), A grown a little in place (only the growth may be taken from the free neighbour,
+    # the remainder stays free), then a request that fits the remainder: no OS request may be made
+    for big_sz in (100000, 1 << 20):
+        for small_to in (1000, 5000):
+            for grow_to in (small_to + 200, 2 * small_to):
+                ops = []
+                for r in range(3):
+                    ops += [["m", 3 * r, big_sz, 16], ["m", 3 * r + 1, 40, 16], ["r", 3 * r, small_to], ["r", 3 * r, grow_to],
+                            ["m", 3 * r + 2, big_sz - grow_to - 8192, 16]]
+                ops += [["f", x] for x in range(9)]
+                for osd in ("b", "a", "d"):
+                    plans.append({"kind": "hist", "slots": 9, "ops": ops, "os": osd, "walk": True,
+                                  "src": "directed-grow-in-place-next-to-big-free-neighbour"})
     # multi-threaded: T threads share one allocator behind tiny-std's own Mutex (lock, one call,
     # unlock - the composition GlobalDlMalloc uses); each thread repeats a TLC-generated workload
     n_mt = 12 if quick else 150
